@@ -10,7 +10,7 @@ import sys, os, json, random, collections, copy
 HERE = os.path.dirname(os.path.abspath(__file__)); sys.path.insert(0, HERE)
 from common import build_module, case_hash
 
-HEADER = ["from dataclasses import dataclass, field", "from typing import *", "from apischema import discriminator, alias",
+HEADER = ["from dataclasses import dataclass, field", "from typing import *", "from apischema import discriminator, alias, schema",
           "from apischema.metadata import flatten, properties",
           "from apischema.tagged_unions import Tagged, TaggedUnion", ""]
 
@@ -32,8 +32,10 @@ def gen_union(rnd, i):
             else: fl.append(f"    {fn}: {ft}")
         if has_field:
             tag = rnd.choice([cname.lower(), f"t{k}"])
-            if aliased: fl.append(f"    {key}_: Literal[{tag!r}] = field(default={tag!r}, metadata=alias({key!r}))")
-            else: fl.append(f"    {key}: Literal[{tag!r}] = {tag!r}")
+            # (the Literal may sit behind an annotation: a description, an inert marker)
+            lit = rnd.choice([f"Literal[{tag!r}]", f"Literal[{tag!r}]", f"Annotated[Literal[{tag!r}], schema(description='tag')]", f"Annotated[Literal[{tag!r}], 'marker']"])
+            if aliased: fl.append(f"    {key}_: {lit} = field(default={tag!r}, metadata=alias({key!r}))")
+            else: fl.append(f"    {key}: {lit} = {tag!r}")
         extra_body, extra_ctor = {}, ""
         if not has_field and rnd.random() < 0.35:
             # an alternative that aggregates properties (a flattened class, a pattern-properties mapping): the discriminator is
